@@ -458,7 +458,10 @@ def run_D10(rep, g):
             from_checked = any(x.startswith('checked_add()') or x.startswith('branch()') for x in ls) and not any('wrapping' in x or 'unchecked' in x for x in ls)
             # the value must trace to checked_add: follow branch()/ok_or() wrappers
             chain_ok = _traces_to(fn, rv[2][0], 'checked_add') if rv[2] else False
-            conds = [CT.condition_sig(fn, s) + '=' + '|'.join(sorted(l)) for s, l in closure.get(b, {}).items()]
+            conds = []
+            for s, l in closure.get(b, {}).items():
+                sig, canon = CT.condition_sig(fn, s)
+                conds.append(sig + '=' + '|'.join(sorted({y for x in l for y in canon(x)})))
             masked = any(c.startswith('Ne(') and 'BitAnd' in c and c.endswith('=0') for c in conds)
             rep.check('D10', 'add_sized|Ok#%d' % n, chain_ok and masked,
                       'Ok value leaves %s; traces to checked_add: %s; controlling conditions %s' % (sorted(ls), chain_ok, conds), fn.loc(st[3]),
